@@ -85,9 +85,30 @@ def run_verus_unit(unit, tier, use_cache=True):
             run["second_run"] = {"wall_s": r2["wall_s"], "cmd": r2["cmd"], "same_verdicts": f1 == f2}
             if f1 != f2:
                 run["frontend_errors"] = run["frontend_errors"] + [{"message": f"unstable proof: verdicts differ between rlimit settings: {f1} vs {f2}", "spans": [], "rendered": ""}]
+        # vacuity guard (DESIGN 2.5): every contracted function, with `ensures false` in place of its own clauses, must fail
+        if r["status"] == "ran" and not cl["frontend_errors"]:
+            try:
+                cmeta = VU.build(unit, repo=repo_root(), canary=True)
+                cpath_gen = os.path.join(GEN, unit + "_canary.rs")
+                VU.emit(cmeta, cpath_gen)
+                rc = VU.run_verus(cpath_gen, multiple_errors=1)
+                ccl = VU.classify(cmeta, rc) if rc["status"] == "ran" else {"failures": [], "frontend_errors": [{"message": "canary run did not finish"}]}
+                failed_fns = set(f["fn"] for f in ccl["failures"] if f["fn"])
+                want = [f["name"] for f in cmeta["functions"] if f.get("canary_on")]
+                vac = sorted(n[:-len("__canary")] for n in want if n not in failed_fns)
+                run["canaries"] = {"functions": len(want), "failed_as_required": len(want) - len(vac), "vacuous": vac, "wall_s": round(rc["wall_s"], 1),
+                                   "frontend_errors": [fe["message"][:200] for fe in ccl["frontend_errors"]][:3]}
+            except Exception as ex:
+                run["canaries"] = {"error": str(ex)[:300]}
         with open(cpath, "w") as fh:
             json.dump(run, fh)
     res["cmd"] = run["cmd"]
+    res["canaries"] = run.get("canaries", {})
+    cn = res["canaries"]
+    if cn.get("vacuous"):
+        res["undecided"].append("vacuous contract (ensures false verifies): " + ", ".join(cn["vacuous"][:5]))
+    if cn.get("frontend_errors") or cn.get("error"):
+        res["undecided"].append("canary run failed: " + str(cn.get("frontend_errors") or cn.get("error"))[:200])
     res["verus_wall_s"] = run["wall_s"]
     res["cached"] = run.get("cached", False)
     res["second_run"] = run.get("second_run")
